@@ -23,7 +23,7 @@ deactivation; every non-one-shot engine consults its LSC on the path completing 
 reachable only from __init__ and run_metaepoch, and run_metaepoch is called only by
 DemeTree.run_metaepoch; (R06.7) a deme's metaepoch counter is len(history) - 1.
 """
-CLAIM = """Decides the lifecycle clause path-sensitively: `_active` True only at construction and False only by the deme itself; only active demes are stepped, once per iteration (hibernation skip excepted); exactly one history append per run_metaepoch path and nothing but append touches the history; each deactivation justified by a true GSC verdict / true LSC verdict after the append / true engine-stop predicate / one-shot engine, and such verdicts always deactivate; evaluations in deme classes reachable only from __init__/run_metaepoch; metaepoch counter = len(history) - 1."""
+CLAIM = """Decides the lifecycle clause path-sensitively: `_active` True only at construction and False only by the deme itself; only active demes are stepped, once per iteration (hibernation skip excepted); exactly one history append per run_metaepoch path and nothing but append touches the history; each deactivation justified by a true GSC verdict / true LSC verdict after the append / true engine-stop predicate / one-shot engine, and such verdicts always deactivate; evaluations in deme classes reachable only from __init__/run_metaepoch; metaepoch counter = len(history) - 1. (R06.12) a deme evaluates only through its own counting wrapper; (R06.13) the stop conditions consulted are the configured objects, not copies; (R06.14) only the deme itself writes its history."""
 NOTE = """Behaviour of user-defined LSCs is not analysed; cma's stop() is treated as the engine self-stop predicate."""
 TECHNIQUE = "custom ast/CFG path-sensitive typestate + who-may-write / who-may-call checks"
 ASSUMPTIONS = [
